@@ -130,7 +130,7 @@ def apply_loop_rule(rule, header, ghost, log, unit):
             raise ExtractError('%s: loop header does not match IT: %s' % (unit, h))
         return '', 'for %s in __it: %s' % (m.group(1), m.group(2)), '', ''
     if rule in ('R1', 'R1m', 'R1c', 'R1s'):
-        m = re.match(r'for\s*\(\s*(\w+)\s*,\s*(&?)\s*(\w+)\s*\)\s+in\s+(.+?)\s*\.iter\(\)\s*\.enumerate\(\)$', h, re.S)
+        m = re.match(r'for\s*\(\s*(\w+)\s*,\s*(&?)\s*(\w+)\s*\)\s+in\s+(.+?)\s*\.(?:iter|into_iter)\(\)\s*\.enumerate\(\)$', h, re.S)
         if not m:
             raise ExtractError('%s: loop header does not match %s: %s' % (unit, rule, h))
         I, amp, X, E = m.group(1), m.group(2), m.group(3), m.group(4)
@@ -209,9 +209,43 @@ def transform_body(unit, body, directives, log):
     loops = find_loops(body, mbody)
     edits = []  # (start, end, replacement)
     used_loops = set()
+    body_start_ghost = {}
+    for d in directives:
+        if d['kind'] == 'loopbody' and d['where'] == 'start':
+            body_start_ghost[d['n']] = body_start_ghost.get(d['n'], '') + '\n' + d['text'] + '\n'
     for d in directives:
         kind = d['kind']
         ghost = d['text']
+        if kind == 'loopbody':
+            k = d['n']
+            if k >= len(loops):
+                raise ExtractError('%s: loop %d not found (body has %d loops)' % (unit, k, len(loops)))
+            s_, he, close = loops[k]
+            if d['where'] == 'end':
+                edits.append((close, close, '\n' + ghost + '\n'))
+            elif not any(x['kind'] == 'loop' and x['n'] == k for x in directives):
+                edits.append((he + 1, he + 1, body_start_ghost[k]))
+                body_start_ghost[k] = ''
+            continue
+        if kind == 'beforeloop':
+            k = d['n']
+            if k >= len(loops):
+                raise ExtractError('%s: loop %d not found (body has %d loops)' % (unit, k, len(loops)))
+            edits.append((loops[k][0], loops[k][0], '\n' + ghost + '\n'))
+            continue
+        if kind == 'afterstmt':
+            anchor = d['anchor']
+            idxs = [m.start() for m in re.finditer(re.escape(anchor), body)]
+            idxs = [i for i in idxs if mbody[i] == body[i]]
+            if d['n'] >= len(idxs) or -d['n'] > len(idxs):
+                raise ExtractError('%s: anchor `%s` #%d not found' % (unit, anchor, d['n']))
+            j = idxs[d['n']]
+            while j < len(mbody) and mbody[j] != ';':
+                if mbody[j] in '([{':
+                    j = match_close(mbody, j)
+                j += 1
+            edits.append((j + 1, j + 1, '\n' + ghost + '\n'))
+            continue
         if kind == 'loop':
             k = d['n']
             if k >= len(loops):
@@ -222,7 +256,7 @@ def transform_body(unit, body, directives, log):
             if d.get('expect') and norm_ws(d['expect']) not in norm_ws(header):
                 raise ExtractError('%s: loop %d header changed: `%s`' % (unit, k, header.strip()))
             pre, nh, bp, suf = apply_loop_rule(d.get('rule'), header, ghost, log, unit)
-            edits.append((s, he + 1, pre + nh + '\n' + ghost + '\n{ ' + bp))
+            edits.append((s, he + 1, pre + nh + '\n' + ghost + '\n{ ' + bp + body_start_ghost.get(k, '')))
             if suf:
                 edits.append((close + 1, close + 1, suf))
         elif kind in ('before', 'after'):
@@ -357,7 +391,7 @@ def process(template_path, info, out_lines, depth=0):
                     parts = t.split()
                     cur = {'kind': 'loop', 'n': int(parts[1]), 'rule': parts[2] if len(parts) > 2 else None, 'text': ''}
                     directives.append(cur)
-                elif t.startswith('//@before') or t.startswith('//@after'):
+                elif (t.startswith('//@before') or t.startswith('//@after')) and not t.startswith('//@beforeloop') and not t.startswith('//@afterstmt'):
                     kind = 'before' if t.startswith('//@before') else 'after'
                     rest = t[len('//@' + kind):].strip()
                     n = 0
@@ -366,6 +400,22 @@ def process(template_path, info, out_lines, depth=0):
                         n, rest = int(mm.group(1)), mm.group(2)
                     anchor, _ = parse_q(rest)
                     cur = {'kind': kind, 'n': n, 'anchor': anchor, 'text': ''}
+                    directives.append(cur)
+                elif t.startswith('//@beforeloop '):
+                    cur = {'kind': 'beforeloop', 'n': int(t.split()[1]), 'text': ''}
+                    directives.append(cur)
+                elif t.startswith('//@afterstmt'):
+                    rest = t[len('//@afterstmt'):].strip()
+                    n = 0
+                    mm = re.match(r'#(-?\d+)\s*(.*)', rest)
+                    if mm:
+                        n, rest = int(mm.group(1)), mm.group(2)
+                    anchor, _ = parse_q(rest)
+                    cur = {'kind': 'afterstmt', 'n': n, 'anchor': anchor, 'text': ''}
+                    directives.append(cur)
+                elif t.startswith('//@loopbody '):
+                    parts = t.split()
+                    cur = {'kind': 'loopbody', 'n': int(parts[1]), 'where': parts[2] if len(parts) > 2 else 'start', 'text': ''}
                     directives.append(cur)
                 elif t.startswith('//@pre'):
                     cur = {'kind': 'pre', 'text': ''}
